@@ -1217,7 +1217,8 @@ class UserSessionManager(Service, discriminator="user-session-manager"):
         def _remote_login(request: RequestFormat, context: Dict) -> RequestResponse:
             """Request should take the form [username, password, remote_ip_address]."""
             username, password, remote_ip_address = request
-            response = RequestResponse.from_bool(self.remote_login(username, password, remote_ip_address))
+            # remote_login returns the new session's id, or None when the login was refused
+            response = RequestResponse.from_bool(self.remote_login(username, password, remote_ip_address) is not None)
             response.data = {"remote_hostname": self.parent.config.hostname, "username": username}
             return response
 
@@ -1458,7 +1459,7 @@ class UserSessionManager(Service, discriminator="user-session-manager"):
 
         if not local and remote_session_id:
             self.parent.terminal._disconnect(remote_session_id)
-            session = self.remote_sessions.pop(remote_session_id)
+            session = self.remote_sessions.pop(remote_session_id, None)
         if session:
             self.historic_sessions.append(session)
             self.sys_log.info(f"{self.name}: User {session.user.username} logged out")
